@@ -5,18 +5,11 @@ from .. import pm
 from ..pm import U
 from . import common as C
 
-TECHNIQUE = "static analysis: sibling agreement of cache-path expressions (after definition substitution), CFG dominance of the version guard, publish-after-conversion ordering in the loader, guard facts for the lazy mode, dead-store check for the path-keyed in-process cache, atomic-publish / tolerant-read pattern check for both cache locations"
+TECHNIQUE = (
+    'static analysis: sibling agreement of cache-path expressions (after definition substitution), CFG dominance of the version guard, publish-after-conversion ordering in the loader, guard facts for the lazy mode, dead-store check for the path-keyed in-process cache, atomic-publish / tolerant-read pattern check for both cache locations ; read-to-update must-reach analysis (with emptiness facts) of a streaming hash helper'
+)
 EXPLANATION = (
-    "R1: reader (_get_cached) and writer (_write_in_cache) derive the companion and home cache paths by the "
-    "same expressions from sha256(file bytes); the key depends on content. R2: every value returned from the "
-    "cache reader is dominated by the internal_version == INTERNAL_VERSION test and the loader stamps that "
-    "constant before publishing. R3: in the loader's building branch no store into self._data follows the "
-    "cache write. R4: cache read, cache write and in-process cache accesses are all guarded by `not lazy`. "
-    "R5: a value read from the path-keyed in-process cache reaches the object's state only if it is "
-    "overwritten (dead) or re-validated against the content hash on every path. R6: for both cache locations "
-    "either atomic publish (dump to a name that is not the final one and is unique per process, then "
-    "os.replace onto the final name) or tolerant read (pickle.load inside a handler that falls back to "
-    "rebuilding) holds."
+    "R1: reader (_get_cached) and writer (_write_in_cache) derive the companion and home cache paths by the same expressions from a digest of the file's bytes; the digest covers ALL bytes: either hashlib.<algo>(<whole content>) in one expression or a helper in which every block obtained from <file>.read(...) reaches <hash>.update(block) on every CFG path before it is overwritten or the function ends, unless a branch has established that the block is empty. R2: every value returned from the cache reader is dominated by the internal_version == INTERNAL_VERSION test and the loader stamps that constant before publishing. R3: in the loader's building branch no store into self._data follows the cache write. R4: cache read, cache write and in-process cache accesses are all guarded by `not lazy`. R5: a value read from the path-keyed in-process cache reaches the object's state only if it is overwritten (dead) or re-validated against the content hash on every path. R6: for both cache locations either atomic publish (dump to a name that is not the final one and is unique per process, then os.replace onto the final name) or tolerant read (pickle.load inside a handler that falls back to rebuilding) holds."
 )
 NOT_DECIDED = "Actual crash points, interleavings of racing processes and directory-permission scenarios (behavioural)."
 ASSUMPTIONS = [
@@ -38,9 +31,10 @@ def _path_exprs(ctx, f):
             name = n.targets[0].id
             raw = U(n.value)
             t = _subst_text(f, n.value)
-            if "hexdigest" in raw:
+            if "hexdigest" in raw or (name.lower().endswith("hash") and isinstance(n.value, ast.Call)):
                 out["hash"] = t
                 out["hash_var"] = name
+                out["hash_node"] = n.value
             elif ".pickle" in raw and "with_name" in raw:
                 out["companion"] = t
                 out["companion_var"] = name
@@ -48,6 +42,168 @@ def _path_exprs(ctx, f):
                 out["home"] = t
                 out["home_var"] = name
     return out
+
+
+HASH_ALGOS = ("sha256", "sha512", "sha384", "sha224", "sha1", "md5", "blake2b", "blake2s", "sha3_256", "sha3_512")
+
+
+def _empty_test(test, v):
+    """(polarity of 'v is non-empty' on the True edge) for the accepted emptiness tests of bytes variable v, else None."""
+    t = U(test)
+    if t in (v, "len(%s)" % v, "len(%s) > 0" % v, "len(%s) != 0" % v, C.canon_eq(v, "b''", "!="), "len(%s) >= 1" % v):
+        return True
+    if t in ("not %s" % v, C.canon_eq("len(%s)" % v, "0"), C.canon_eq(v, "b''"), "len(%s) < 1" % v, "not len(%s)" % v):
+        return False
+    return None
+
+
+def _streaming_digest_ok(ctx, h, path_param):
+    """Does helper function `h` return a digest over the WHOLE content of the file named by its parameter?
+    Returns (ok, reason). Rule: every value obtained from <file>.read(...) reaches <hash>.update(value) on every path
+    before it is overwritten or the function ends, unless a branch has established that the value is empty."""
+    from ..cfg import EXIT
+    cfg = C.cfg_of(h)
+    rets = [r for r in ast.walk(h.node) if isinstance(r, ast.Return)]
+    if len(rets) != 1 or rets[0].value is None:
+        return None, "helper has %d return statements" % len(rets)
+    rv = rets[0].value
+    # one-expression helpers
+    one = _digest_expr_ok(U(rv), path_param)
+    if one:
+        return True, "returns " + U(rv)
+    m = pm.match("M_h.hexdigest()", rv) or pm.match("M_h.digest()", rv)
+    if m is None or not isinstance(m["M_h"], ast.Name):
+        return None, "return value `%s` is not <hash object>.hexdigest()" % U(rv)
+    hv = m["M_h"].id
+    hdef = [a for a in C.assigns_to(h.node, hv)]
+    if len(hdef) != 1 or not any(U(hdef[0].value) == "hashlib.%s()" % a for a in HASH_ALGOS):
+        # hashlib.file_digest(f, 'sha256') hashes the whole stream
+        if len(hdef) == 1 and C.is_call_to(hdef[0].value, "file_digest"):
+            return True, "hashlib.file_digest"
+        return None, "hash object `%s` is not created by hashlib.<algo>()" % hv
+    # file objects opened (binary) from the path parameter
+    files = set()
+    for w in ast.walk(h.node):
+        if isinstance(w, ast.With):
+            for it in w.items:
+                ce = U(it.context_expr)
+                if it.optional_vars is not None and (ce.startswith("%s.open(" % path_param) or ce.startswith("open(%s" % path_param)):
+                    if "'rb'" not in ce:
+                        return False, "the file is not opened in binary mode: %s" % ce
+                    files.add(U(it.optional_vars))
+    if not files:
+        return None, "no `with <path>.open('rb') as f` found"
+    reads = [c for c in ast.walk(h.node) if isinstance(c, ast.Call) and isinstance(c.func, ast.Attribute) and c.func.attr == "read"
+             and U(c.func.value) in files]
+    if not reads:
+        return None, "no read() on the opened file"
+    updates = [c for c in ast.walk(h.node) if isinstance(c, ast.Call) and U(c.func) == "%s.update" % hv]
+    for rd in reads:
+        par = C.parent(rd)
+        # H.update(f.read()) - the whole remaining file at once
+        if isinstance(par, ast.Call) and par in updates and not rd.args and not rd.keywords:
+            continue
+        # for block in iter(lambda: f.read(N), b''): every iteration must hash block
+        lam = par if isinstance(par, ast.Lambda) else None
+        if lam is not None:
+            it = C.parent(lam)
+            loop = C.parent(it) if C.is_call_to(it, "iter") else None
+            if not (isinstance(loop, ast.For) and loop.iter is it and len(it.args) == 2 and U(it.args[1]) == "b''"
+                    and isinstance(loop.target, ast.Name)):
+                return None, "read inside a lambda that is not `for block in iter(lambda: f.read(n), b'')`"
+            v = loop.target.id
+            ups = [u for u in updates if C.in_subtree(u, loop) and len(u.args) == 1 and U(u.args[0]) == v]
+            if not ups or any(cfg.reachable(loop, loop, avoid=ups, within=loop) for _ in (0,)) or any(
+                    isinstance(x, ast.Break) for x in ast.walk(loop)):
+                return False, "a block read by `%s` can skip `%s.update(%s)` (or the loop is left early)" % (U(it), hv, v)
+            continue
+        # v = f.read(...) / (v := f.read(...))
+        if isinstance(par, ast.Assign) and len(par.targets) == 1 and isinstance(par.targets[0], ast.Name) and par.value is rd:
+            v, start = par.targets[0].id, par
+        elif isinstance(par, ast.NamedExpr) and par.value is rd:
+            v, start = par.target.id, cfg.node_of(par)
+        else:
+            return None, "the result of `%s` is neither hashed directly nor bound to a name" % U(rd)
+        ups = {id(cfg.node_of(u)) for u in updates if len(u.args) == 1 and U(u.args[0]) == v}
+        redefs = {id(cfg.node_of(x)) for x in ast.walk(h.node)
+                  if (isinstance(x, ast.Assign) and any(isinstance(t, ast.Name) and t.id == v for t in x.targets))
+                  or (isinstance(x, ast.NamedExpr) and x.target.id == v)}
+        seen, work = set(), []
+
+        def succs(node, first=False):
+            out = []
+            for t in cfg.G.successors(node):
+                lab = cfg.G.edges[node, t].get("label")
+                if lab == "exc":
+                    continue
+                test = getattr(node, "test", None) if isinstance(node, (ast.If, ast.While)) else None
+                if test is not None and isinstance(node, ast.While) and isinstance(test, ast.NamedExpr) and test.target.id == v:
+                    pol = True          # while (v := f.read(n)): truthiness of the fresh value
+                else:
+                    pol = _empty_test(test, v) if test is not None else None
+                if pol is not None and lab in (True, False):
+                    nonempty_edge = (lab is True) == pol
+                    if not nonempty_edge:
+                        continue        # v is empty on this edge: nothing is lost
+                out.append(t)
+            return out
+        # when the defining node is itself the while header with the walrus, its own branch decides
+        work = succs(start)
+        bad = None
+        while work and bad is None:
+            cur = work.pop()
+            if cur == EXIT:
+                bad = "the end of the function"
+                break
+            if id(cur) in seen:
+                continue
+            seen.add(id(cur))
+            if id(cur) in ups:
+                continue
+            if id(cur) in redefs:
+                bad = "the next `%s = ...` (line %d)" % (v, cur.lineno)
+                break
+            work.extend(succs(cur))
+        if bad:
+            return False, ("a block obtained by `%s` (line %d) can reach %s without `%s.update(%s)` and without a test that it is "
+                           "empty: that part of the file does not enter the cache key" % (U(rd), rd.lineno, bad, hv, v))
+    return True, "every block read from the file is fed to %s.update" % hv
+
+
+def _digest_expr_ok(text, pvar):
+    """hashlib.<algo>(<whole content of pvar>).hexdigest() in one expression."""
+    for a in HASH_ALGOS:
+        for content in ("%s.read_bytes()" % pvar, "Path(%s).read_bytes()" % pvar, "open(%s, 'rb').read()" % pvar,
+                        "%s.open('rb').read()" % pvar):
+            if text == "hashlib.%s(%s).hexdigest()" % (a, content):
+                return True
+    return False
+
+
+def _content_key(ctx, f, role_text, raw_value):
+    """Is the cache key of function f a digest over the whole file content?  (ok, why)"""
+    fparam = f.params()[1]
+    t = role_text
+    for pv in ("Path(%s)" % fparam, fparam):
+        if _digest_expr_ok(t, pv):
+            return True, "digest of the file's bytes in one expression"
+    # a helper: self._x(P) / MachineModel._x(P) / x(P)
+    call = raw_value
+    if isinstance(call, ast.Call) and len(call.args) >= 1:
+        name = pm.call_name(call).split(".")[-1]
+        h = ctx.repo.funcs.get("MachineModel." + name) or next((fn for q, fn in ctx.repo.funcs.items() if q.endswith("." + name)
+                                                                 and fn.cls is None), None)
+        if h is not None:
+            ctx.touch(h)
+            arg = U(C.flow_of(f).subst(call.args[0]))
+            if arg not in ("Path(%s)" % fparam, fparam):
+                return False, "the helper %s is applied to `%s`, not to the model file" % (h.qname, arg)
+            ps = [p for p in h.params() if p not in ("self", "cls")]
+            if not ps:
+                return None, "helper %s takes no path" % h.qname
+            ok, why = _streaming_digest_ok(ctx, h, ps[0])
+            return ok, "%s: %s" % (h.qname, why)
+    return None, "cache key `%s` is neither hashlib.<algo>(<file bytes>).hexdigest() nor a helper that could be analysed" % t
 
 
 def run(ctx):
@@ -69,9 +225,14 @@ def run(ctx):
                   "reader and writer compute the %s differently:\n    reader: %s\n    writer: %s" % (role, a, b),
                   "MachineModel", "cache %s agreement" % role)
     if "hash" in pr:
-        ctx.check("read_bytes()" in pr["hash"] and "FILE" in pr["hash"].replace(rd.params()[1], "FILE"), "R1",
-                  "cache key is a digest of the model file's bytes", rd.where(),
-                  "the cache key is not a digest of the file's content: %s" % pr["hash"], rd.qname, "content key")
+        for fn, pe in ((rd, pr), (wr, pw)):
+            if "hash" not in pe:
+                continue
+            ok, why = _content_key(ctx, fn, pe["hash"], pe["hash_node"])
+            if ok is None:
+                ctx.broken("R1: %s" % why)
+            ctx.check(ok, "R1", "cache key is a digest of ALL bytes of the model file (%s)" % fn.name, fn.where(pe["hash_node"]),
+                      "the cache key does not cover the whole content of the model file: %s" % why, fn.qname, "content key")
         for role in ("companion", "home"):
             if role in pr:
                 hv = pr["hash"]
